@@ -95,6 +95,26 @@ func genC04Case(t *rapid.T) *StructCase {
 		m, _ := measureOf(kind, v)
 		return genSizeRule(t, m, "leaf") + mg.next(t)
 	}
+	if rapid.IntRange(0, 24).Draw(t, "payloadFirst") == 0 {
+		// a payload-sized collection of scalars under a marker, declared before marked sub-objects:
+		// whatever the walker counts or buffers per element, the sub-objects behind it are still reached
+		ek := rapid.SampledFrom([]string{"uint8", "string", "int"}).Draw(t, "payloadElem")
+		unit := []desc.V{genScalar(t, ek, "payloadVal", true), genScalar(t, ek, "payloadVal2", true)}
+		pv := desc.V{}
+		for total := rapid.SampledFrom([]int{9000, 10001, 12000, 16384, 40000}).Draw(t, "payloadLen"); len(pv.E) < total; {
+			pv.E = append(pv.E, unit...)
+		}
+		pt := desc.T{K: "struct", Fields: []desc.F{{Name: "Payload", T: desc.Slice(desc.Scalar(ek)),
+			Tags: map[string]string{"valid": rapid.SampledFrom([]string{"required", "exist", "required|need"}).Draw(t, "payloadMark")}}}}
+		val := desc.V{E: []desc.V{pv}}
+		for i := rapid.IntRange(1, 2).Draw(t, "behindPayload"); i > 0; i-- {
+			f, v := g.containerField(fieldNames[i], 1)
+			pt.Fields = append(pt.Fields, f)
+			val.E = append(val.E, v)
+		}
+		genFlags.bulk = true
+		return &StructCase{Root: desc.Ptr(pt), Val: desc.V{E: []desc.V{val}}}
+	}
 	ty, _ := g.genStruct(0)
 	// group clauses name their object by path too
 	walkTypes(&ty, func(st *desc.T) { addGroups(t, st, "valid") })
@@ -124,6 +144,7 @@ func checkC04(c *StructCase) (msg string, res *model.Result, skipped string) {
 func TestC04(t *testing.T) {
 	rapid.Check(t, func(t *rapid.T) {
 		c := genC04Case(t)
+		takeGenFlags()
 		c.pickEntry(rapid.IntRange(0, 7).Draw(t, "entry"))
 		msg, res, skipped := checkC04(c)
 		if skipped != "" {
